@@ -1,38 +1,56 @@
 /- Line-protocol driver.  Input lines: `op tok ... => impl-tok ...` (the part after `=>` is the
    implementation's answer, needed only by predicate ops).  Output per line: the model's answer,
-   or `~ok` / `~bad:<why>` for predicate ops, or `?parse` / `?op`. -/
+   or `~ok` / `~bad:<why>` for predicate ops, or `?parse` / `?op`.
+   Ops whose name starts with `@` are stateful (histories); `@reset` re-initialises every stateful handler. -/
 import Mpir.Ops.All
 open Mpir
 
 def words (s : String) : List String := (s.trimAscii.toString.splitOn " ").filter (· ≠ "")
 
-def answer (line : String) : String :=
-  let (lhs, rhs) := match line.splitOn " => " with
-    | [a] => (a, "")
-    | a :: rest => (a, " => ".intercalate rest)
-    | [] => ("", "")
+def splitLine (line : String) : String × String :=
+  match line.splitOn " => " with
+  | [a] => (a, "")
+  | a :: rest => (a, " => ".intercalate rest)
+  | [] => ("", "")
+
+def answerPure (op : String) (toks : List Tok) (rhs : String) : String :=
+  match Mpir.Ops.handlers.findSome? (fun h => h op toks) with
+  | some out => renderLine out
+  | none =>
+    let impl := ((words rhs).mapM parseTok?).getD [Tok.err "unparsable"]
+    match Mpir.Ops.predHandlers.findSome? (fun h => h op toks impl) with
+    | some none => "~ok"
+    | some (some why) => "~bad:" ++ why
+    | none => "?op"
+
+def answer (sts : List StatefulHandler) (line : String) : IO String := do
+  let (lhs, rhs) := splitLine line
   match words lhs with
-  | [] => ""
+  | [] => pure ""
   | op :: args =>
     match args.mapM parseTok? with
-    | none => "?parse"
+    | none => pure "?parse"
     | some toks =>
-      match Mpir.Ops.handlers.findSome? (fun h => h op toks) with
-      | some out => renderLine out
-      | none =>
-        let impl := ((words rhs).mapM parseTok?).getD [Tok.err "unparsable"]
-        match Mpir.Ops.predHandlers.findSome? (fun h => h op toks impl) with
-        | some none => "~ok"
-        | some (some why) => "~bad:" ++ why
-        | none => "?op"
+      if op == "@reset" then
+        for s in sts do s.reset
+        pure "ok"
+      else if op.startsWith "@" then
+        let mut res : Option (List Tok) := none
+        for s in sts do
+          if res.isNone then res ← s.run op toks
+        match res with
+        | some out => pure (renderLine out)
+        | none => pure (answerPure op toks rhs)
+      else pure (answerPure op toks rhs)
 
-partial def loop (h : IO.FS.Stream) (out : IO.FS.Stream) : IO Unit := do
+partial def loop (sts : List StatefulHandler) (h : IO.FS.Stream) (out : IO.FS.Stream) : IO Unit := do
   let line ← h.getLine
   if line.isEmpty then return ()
-  out.putStrLn (answer line)
-  loop h out
+  out.putStrLn (← answer sts line)
+  loop sts h out
 
 def main : IO Unit := do
   let out ← IO.getStdout
-  loop (← IO.getStdin) out
+  let sts ← Mpir.Ops.statefulMakers.mapM id
+  loop sts (← IO.getStdin) out
   out.flush
